@@ -1025,7 +1025,7 @@ func c10Retry(e *Env) {
 	okGuard := false
 	if len(def.Decl.Body.List) > 0 {
 		if is, ok := def.Decl.Body.List[0].(*ast.IfStmt); ok {
-			if found, pol := condCalls(info, is.Cond, func(f *types.Func) bool { return esp.Is(f, pkgProto, "Request", "IsBodyStream") }); found && pol > 0 && terminates(is.Body) {
+			if found, pol, _ := condCalls(info, is.Cond, func(f *types.Func) bool { return esp.Is(f, pkgProto, "Request", "IsBodyStream") }); found && pol > 0 && terminates(is.Body) {
 				if rs, ok := is.Body.List[len(is.Body.List)-1].(*ast.ReturnStmt); ok && len(rs.Results) == 1 {
 					if id, ok := rs.Results[0].(*ast.Ident); ok && id.Name == "false" {
 						okGuard = true
